@@ -98,7 +98,7 @@ impl Maps {
     fn get(&mut self, limit: usize) -> &HeaderMap {
         let handle = ckb_async_runtime::Handle::new(self._rt.handle().clone(), None);
         self.maps.entry(limit).or_insert_with(|| {
-            let dir = scratch_dir("C17");
+            let dir = std::env::temp_dir();
             HeaderMap::new(Some(dir), limit * std::mem::size_of::<HeaderIndexView>(), &handle, Arc::new(AtomicBool::new(true)))
         })
     }
@@ -272,7 +272,6 @@ pub fn run(cx: &mut Ctx) {
         cx.count("hmap_seq_random");
     }
     drop(maps);
-    let _ = std::fs::remove_dir_all(out_dir("C17").join(format!("scratch-{}", std::process::id())));
 }
 
 pub fn replay(case: &Value, viol: &mut Vec<Violation>) {
@@ -282,5 +281,4 @@ pub fn replay(case: &Value, viol: &mut Vec<Violation>) {
     let obs = run_ops(&mut maps, case["limit"].as_u64().unwrap() as usize, &keys, &ops, viol, case);
     println!("answers: {:?}", obs.iter().map(|o| &o.0).collect::<Vec<_>>());
     drop(maps);
-    let _ = std::fs::remove_dir_all(out_dir("C17").join(format!("scratch-{}", std::process::id())));
 }
